@@ -70,10 +70,11 @@ func shortFn(f string) string {
 func collectRaces(run *lib.Run, raceLog string) {
 	files, _ := filepath.Glob(raceLog + ".*")
 	type agg struct {
-		n       int
-		example string
-		p2p     bool
-		harness bool
+		n        int
+		example  string
+		p2p      bool
+		harness  bool
+		observer bool
 	}
 	byKey := map[string]*agg{}
 	total := 0
@@ -93,7 +94,7 @@ func collectRaces(run *lib.Run, raceLog string) {
 				continue
 			}
 			var fs []string
-			p2p, harness := false, false
+			p2p, harness, observer := false, false, false
 			for _, s := range st[:2] {
 				f := s.firstOf(annPrefix)
 				if f == "" {
@@ -107,6 +108,9 @@ func collectRaces(run *lib.Run, raceLog string) {
 				if strings.HasPrefix(f, annPrefix+"gemmill/p2p.") {
 					p2p = true
 				}
+				if f == annPrefix+"gemmill/p2p.(*MConnection).Status" {
+					observer = true
+				}
 				fs = append(fs, shortFn(f))
 			}
 			sort.Strings(fs)
@@ -119,6 +123,7 @@ func collectRaces(run *lib.Run, raceLog string) {
 			a.n++
 			a.p2p = a.p2p || p2p
 			a.harness = a.harness || harness
+			a.observer = a.observer || observer
 		}
 	}
 	run.Count("race_reports", int64(total))
@@ -135,6 +140,14 @@ func collectRaces(run *lib.Run, raceLog string) {
 		switch {
 		case a.harness:
 			run.Inconclusive(fmt.Sprintf("race report with an access made by the harness itself (%s): %s", k, tail(a.example, 1200)))
+		case a.observer:
+			// MConnection.Status() (the RPC net_info snapshot) reads Channel.sendQueueSize / recentlySent without
+			// synchronisation: a genuine data race on channel STATISTICS. Delivery, integrity and order - what
+			// C20's oracle depends on - do not read these fields (DESIGN 2.4: attributed only when the racing
+			// location is state the property's oracle depends on). Counted and shown, not a C20 violation.
+			run.Count("race_reports_status_observer", int64(a.n))
+			fmt.Printf("OBSERVED (not judged): %s x%d - unsynchronised statistics read in MConnection.Status()\n", k, a.n)
+			run.Sample(map[string]interface{}{"monitor": "c-race-status-observer", "key": k, "reports": a.n, "report": tail(a.example, 1500)})
 		case a.p2p:
 			run.Violation(k, fmt.Sprintf("data race on MConnection / channel state inside gemmill/p2p, reported %d times", a.n), map[string]interface{}{"reports": a.n, "report": a.example})
 		default:
